@@ -290,3 +290,31 @@ def reinterpret_input(fn, input_params):
             if is_raw(n.func.value):
                 out.append((n, norm(n.func.value)))
     return out
+
+
+def collapsed_elementwise_choice(fn):
+    """`if (X <cmp> c).any()/.all(): X += a  else: X += b` - a per-element decision (which constant applies to which element) taken once
+    for the whole array.  -> [(if stmt, array name, reduction)]"""
+    out = []
+    for st in iter_stmts(fn.body):
+        if not isinstance(st, ast.If) or not st.orelse:
+            continue
+        t = st.test
+        if isinstance(t, ast.UnaryOp) and isinstance(t.op, ast.Not):
+            t = t.operand
+        red = None
+        if isinstance(t, ast.Call) and isinstance(t.func, ast.Attribute) and t.func.attr in ('any', 'all') and isinstance(t.func.value, ast.Compare):
+            red, cmp_ = t.func.attr, t.func.value
+        elif isinstance(t, ast.Call) and dotted(t.func) in ('np.any', 'np.all', 'any', 'all') and t.args and isinstance(t.args[0], ast.Compare):
+            red, cmp_ = dotted(t.func).split('.')[-1], t.args[0]
+        if red is None or not isinstance(cmp_.left, ast.Name):
+            continue
+        x = cmp_.left.id
+
+        def updates(block):
+            return [s2 for s2 in block if (isinstance(s2, ast.AugAssign) and isinstance(s2.target, ast.Name) and s2.target.id == x) or
+                    (isinstance(s2, ast.Assign) and len(s2.targets) == 1 and isinstance(s2.targets[0], ast.Name) and s2.targets[0].id == x
+                     and any(isinstance(n, ast.Name) and n.id == x for n in ast.walk(s2.value)))]
+        if updates(st.body) and updates(st.orelse) and norm(updates(st.body)[0]) != norm(updates(st.orelse)[0]):
+            out.append((st, x, red))
+    return out
